@@ -105,19 +105,23 @@ class Agg:
         # a kernel failure that hits every function of a template family is one finding
         out = []
         used = set()
-        for impl in ("so", "src"):
-            for fam in ("cdist22", "cdist32"):
-                names = {op for op in self.tried if op.startswith(f"kernel[{impl}]:{fam}")}
-                by = {}
-                for i, (op, symptom, restr, f) in enumerate(rows):
-                    if op in names:
-                        by.setdefault((symptom, restr), []).append(i)
-                for (symptom, restr), idxs in sorted(by.items()):
-                    if len(names) > 1 and {rows[i][0] for i in idxs} == names:
-                        first = rows[idxs[0]][3]["first"]
-                        n = sum(rows[i][3]["n"] for i in idxs)
-                        out.append((f"kernel[{impl}]:{fam}*:{symptom}{restr}", n) + tuple(first))
-                        used.update(idxs)
+        kre = re.compile(r"^kernel\[(so|src)\]:(cdist22|cdist32)[fd]?_eu2?(:history\[.*\])?$")
+        groups = {}  # (impl, family, suffix) -> operation names that were tried
+        for op in self.tried:
+            m = kre.match(op)
+            if m:
+                groups.setdefault((m.group(1), m.group(2), m.group(3) or ""), set()).add(op)
+        for (impl, fam, suffix), names in sorted(groups.items()):
+            by = {}
+            for i, (op, symptom, restr, f) in enumerate(rows):
+                if op in names:
+                    by.setdefault((symptom, restr), []).append(i)
+            for (symptom, restr), idxs in sorted(by.items()):
+                if len(names) > 1 and {rows[i][0] for i in idxs} == names:
+                    first = rows[idxs[0]][3]["first"]
+                    n = sum(rows[i][3]["n"] for i in idxs)
+                    out.append((f"kernel[{impl}]:{fam}*{suffix}:{symptom}{restr}", n) + tuple(first))
+                    used.update(idxs)
         for i, (op, symptom, restr, f) in enumerate(rows):
             if i not in used:
                 out.append((f"{op}:{symptom}{restr}", f["n"]) + tuple(f["first"]))
@@ -964,6 +968,9 @@ def run(ctx):
         "(n,3)x(m,3) / (x,n,3)x(m,3) up to the bound x 4 dtypes x layouts, every pair of the 64 alphabet points, and non-representable "
         "coordinates, through the shipped .so and through distance.cpp compiled from the current tree; descriptors - the product of the "
         "corner/extent/padding/spacing/dtype menus, and ensembles of 1..3 conformers x 1..3 atoms x 3 grids x cut-off/eps/weighted menus. "
+        "History dimension: every ordered pair of descriptor functions on the SAME ensemble / geometry with every in-place edit between the two calls "
+        "(element, coordinates, charges, weights, append/extend, scale, translate, del/add atom, the grid array mutated in place), 3-call sequences over reduced menus, "
+        "and kernels called again on the same array objects after in-place mutation; every result is compared with the definition on the object's current state. "
         "Non-trivial: kernel result with a non-zero distance (per function/shape/dtype/layout class), grid with > 1 point, nearest/prune "
         "answer that is mixed (some -1 / dropped, some not), field with zero and non-zero values among the compared points. The result "
         "says nothing about values outside these lattices."
@@ -981,6 +988,8 @@ def run(ctx):
         "aeif / atomic_indicator_field: value of the nearest atom when the point lies inside any sphere of the conformer, else 0; grid points where "
         "'nearest atom' and 'nearest atom among the spheres containing the point' differ in value are not compared (the text does not choose)",
         "van der Waals radii are read from Atom.vdw_radius (input data of the definition)",
+        "history sequences: the reference is evaluated on the state read back from the object after each edit (coords, charges, weights, elements); a sequence whose edit raises "
+        "or leaves the object non-rectangular is stopped and counted in the notes (that is C14/C05 matter, not C19)",
     ]
     lib = compile_src(ctx.scratch)
     ctx.note("src_kernel_build", f"g++ -std=c++17 -O1 -shared -fPIC {REPO}/molli_xt/distance.cpp {REPO}/molli_xt/_molli_xt.cpp + /verif/shim")
@@ -1005,6 +1014,22 @@ def run(ctx):
     for what in ("nearest", "field"):
         for lo in range(0, nens, step):
             jobs.append((f"descriptors:{what}", descriptor_job, {"seed": seed, "thorough": thorough, "lo": lo, "hi": min(nens, lo + step), "what": what}))
+    # history dimension: 2..3 calls on the same object with an in-place edit in between (mc/props/c19_history.py)
+    from mc.props import c19_history as hist
+
+    nb = len(hist.history_bases(seed, thorough))
+    for impl in ("so", "src"):
+        jobs.append((f"kernel-history[{impl}]", hist.kernel_history_job, {"impl": impl, "seed": seed, "thorough": thorough, "lib": str(lib)}))
+    for lo in range(0, nb, 1 if thorough else 2):
+        jobs.append(("history:ens2", hist.descriptor_history_job, {"seed": seed, "thorough": thorough, "part": "ens2", "lo": lo, "hi": min(nb, lo + (1 if thorough else 2))}))
+    for lo in range(0, 4 if thorough else 2):
+        jobs.append(("history:ens3", hist.descriptor_history_job, {"seed": seed, "thorough": thorough, "part": "ens3", "lo": lo, "hi": lo + 1}))
+    jobs.append(("history:geom", hist.descriptor_history_job, {"seed": seed, "thorough": thorough, "part": "geom"}))
+    ctx.bound["history"] = {
+        "ensemble_functions": list(hist.ENS_FUNCS), "ensemble_edits": list(hist.ENS_EDITS), "geometry_functions": list(hist.GEOM_FUNCS), "geometry_edits": list(hist.GEOM_EDITS),
+        "calls_per_sequence": "2 (all ordered function pairs x every edit) and 3 (reduced menus)", "base_objects": nb,
+        "kernel_edits": ["first-input-mutated-in-place", "second-input-mutated-in-place", "previous-result-mutated-in-place"],
+    }  # fmt: skip
     # the big kernel jobs first
     run_forked(ctx, agg, jobs, nproc=16 if thorough else 8, timeout=840 if thorough else 110)
     agg.emit(ctx)
@@ -1056,6 +1081,16 @@ def replay(ctx, case):
         coords = np.array(case["coords"], dtype=np.float64)
         grid = np.array(case["grid"], dtype=np.dtype(case["gdtype"])).reshape(-1, 3)
         field_case(ctx, agg, case["label"], tuple(case["els"]), coords, np.array(case["charges"]), np.array(case["weights"]), case["gname"], grid)
+    elif kind == "history":
+        from mc.props import c19_history as hist
+
+        hist.replay_history(ctx, agg, case)
+    elif kind == "kernel-history":
+        from mc.props import c19_history as hist
+
+        src = SrcKernels(compile_src(ctx.scratch)) if case["impl"] == "src" else None
+        A = np.array(case["A"], dtype=np.float64)
+        hist.kernel_history_case(ctx, agg, case["impl"], src, case["name"], A, np.array(case["B"], dtype=np.float64).reshape(-1, 3), case["dt"], case["la"], case["lb"])
     elif kind in ("crash", "kernel-missing"):
         # re-run the job that died
         m = re.match(r"kernel\[(\w+)\]:(cdist\d\d)", case["op"])
